@@ -1,0 +1,37 @@
+//go:build verif
+// +build verif
+
+package config
+
+import "encoding/json"
+
+// VerifSetDirs overrides the working and home directories of a Loader (verification builds only).
+func (cl *Loader) VerifSetDirs(dir, homeDir string) {
+	cl.dir = dir
+	cl.homeDir = homeDir
+}
+
+// VerifLoadRaw exposes the import-resolving raw loader.
+func (cl *Loader) VerifLoadRaw(file string) (map[string]interface{}, error) {
+	cl.reset()
+	return cl.load(file)
+}
+
+// VerifDecodeJSON decodes a raw document into the configuration definition and dumps it as JSON.
+func (cl *Loader) VerifDecodeJSON(raw map[string]interface{}) (string, error) {
+	def, err := cl.decode(raw)
+	if err != nil {
+		return "", err
+	}
+	b, err := json.Marshal(def)
+	return string(b), err
+}
+
+// VerifBuildRaw decodes a raw document and builds a Config from it.
+func (cl *Loader) VerifBuildRaw(raw map[string]interface{}, dir string) (*Config, error) {
+	def, err := cl.decode(raw)
+	if err != nil {
+		return nil, err
+	}
+	return buildFromDefinition(def, &loaderContext{Dir: dir})
+}
